@@ -530,6 +530,35 @@ theorem create_wrapper_matches_parser :
     (∀ f ∈ reads, (parserDefaults.lookup f).isSome = true) := by decide
 
 open Shroud.Gen.Cli in
+def fieldId (name : String) : Nat := fieldNames.idxOf (name.toList.map Char.toNat)
+
+open Shroud.Gen.Cli in
+/-- the list an `append` option starts from, as written in `main()` -/
+def appendDefault (f : Nat) : List (List Nat) :=
+  match parserDefaults.lookup f with
+  | some .emptyList => []
+  | some (.strList l) => l
+  | _ => [[63]]
+
+open Shroud.Gen.Cli in
+/-- **search path.**  `--path` (and `--option`) are `append` options whose
+    default is the empty list (regenerated table), hence for every list of
+    directories `ps` the path searched for `splicer:` files by the command line
+    `--path p1 --path p2 ...` is the one searched by
+    `create_wrapper(path=[p1, p2, ...])`; with no directories both search `.` -/
+theorem cli_path_eq_create_wrapper :
+    fieldId "path" ∈ appendFields ∧ fieldId "option" ∈ appendFields ∧
+    appendDefault (fieldId "path") = [] ∧ appendDefault (fieldId "option") = [] ∧
+    (∀ ps, searchPath (argparseAppend (appendDefault (fieldId "path")) ps) = searchPath ps) ∧
+    searchPath [] = [[46]] := by
+  have h : appendDefault (fieldId "path") = [] := by decide
+  refine ⟨by decide, by decide, h, by decide, ?_, rfl⟩
+  intro ps; rw [h]; rfl
+
+example : searchPath ["a:b".toList.map Char.toNat, "c".toList.map Char.toNat]
+    = ["a".toList.map Char.toNat, "b".toList.map Char.toNat, "c".toList.map Char.toNat] := by decide
+
+open Shroud.Gen.Cli in
 /-- **table theorem.**  `main.Config` binds no mutable object at class level,
     and the lists/dictionary that the wrappers only ever mutate (`cfiles`,
     `ffiles`, `pyfiles`, `fc_shared_helpers`) are created per instance in
